@@ -46,6 +46,9 @@ CAUGHT = {
  "C02d": "C02 `TV_LiveEvents` on stale-alias streams whose second document first defines an anchor of its own (added for it)",
  "C03d": "C03 `TR_MapAccess` and `TV_MapAccess` under LastWins", "C05d": "C05 `TV_TypedCursor` (short tuples with optional trailing positions)",
  "C06d": "C06 `TV_Scalars` (negative integers with redundant leading zeros read untyped)",
+ "C08d": "C08 `TV_Bounds` (replay limit not enforced without a budget)", "C11d": "C11 `TV_Stream` (anchors of a later document visible in the next ones)",
+ "C12d": "C12 `TV_Quoting` (block scalar whose first non-empty line is blanks only)", "C16d": "C16 `TV_Locations` (use site of leaves below an aliased container)",
+ "C17d": "C17 `TV_Snippet` (marker of the definition window)",
  "C16a": "C16 `TV_Locations` (`merged-entry-not-attributed-to-its-merge`)", "C17a": "C17 `TV_Snippet` (`ring` family)",
  "C18a": "C18 `TV_PathMap` through the Display channels", "C19a": "C19 `TV_Robotics` (`wrong-value`)", "C20a": "C20 `TV_Emitter`",
 }
